@@ -429,7 +429,7 @@ def stack(arrays, axis=None, keys=None, align=False, **kwargs):
 
     # create dimarray
     _constructor = arrays[0]._constructor # DimArray
-    return _constructor(data, axes=newaxes)
+    return _constructor(data, newaxes)
 
 def _concatenate_axes(axes):
     """ concatenate Axis objects
@@ -635,7 +635,7 @@ def reindex_axis(self, values, axis=0, fill_value=np.nan, raise_error=False, met
         shape[pos] = values.size
         newvalues = np.empty(shape, dtype=np.result_type(self.values.dtype, np.asarray(fill_value).dtype))
         newvalues.fill(fill_value)
-        newaxes = [a.copy() if a.name != name else Axis(values, name, **a.attrs) for a in self.axes]
+        newaxes = [a.copy() if a.name != name else a._new(values) for a in self.axes]
         return self._constructor(newvalues, newaxes, **self.attrs)
 
     # indices = ax.loc(values, mode='clip', side=method)
